@@ -207,7 +207,9 @@ def annotation_gaps(text, info, names, degraded):
         nxt = [x[0] for x in mods if x[0] > st[0][0]]
         mtext = text[st[0][0]:(nxt[0] if nxt else len(text))]
         reasons = []
-        if len(parts) >= 2 and ((mname, parts[-2] if len(parts) >= 3 else '', short) in new_pairs):
+        # (an override of a trait method is new as an item but carries the trait-level contract: its failure is meaningful)
+        trait_methods = ('to_vec', 'from_slice', 'to_tagged_vec', 'from_tagged_slice', 'from_cbor_value', 'to_cbor_value', 'cmp', 'partial_cmp')
+        if short not in trait_methods and len(parts) >= 2 and ((mname, parts[-2] if len(parts) >= 3 else '', short) in new_pairs):
             reasons.append('is-itself-new-on-this-tree-and-has-no-contract')
         for off in extract.fn_occurrences(mtext, short):
             b = mtext.find('{', off)
